@@ -35,3 +35,35 @@ package masswallet
 //@   loop#1 invariant 0 <= iter_ && iter_ <= len(outputs) && len(mtx.TxOut) == old(len(mtx.TxOut)) + iter_
 //@   loop#1 invariant forall qj_ int :: 0 <= qj_ && qj_ < iter_ ==> stakingOutOK(mtx.TxOut[old(len(mtx.TxOut))+qj_], outputs[qj_])
 //@   loop#1 invariant forall qj_ int :: 0 <= qj_ && qj_ < old(len(mtx.TxOut)) ==> mtx.TxOut[qj_] == old(mtx.TxOut[qj_])
+
+// ---- C19: the notification handler's per-transaction filter cannot panic ----
+// txWF: a decoded transaction has no nil input or output entries (wire decoding allocates every entry)
+//@ define txWF(t) = (t != nil && (forall qi_ int :: 0 <= qi_ && qi_ < len(t.TxIn) ==> t.TxIn[qi_] != nil) && (forall qo_ int :: 0 <= qo_ && qo_ < len(t.TxOut) ==> t.TxOut[qo_] != nil))
+//@ define recWF(r) = (r != nil && (forall qo_ int :: 0 <= qo_ && qo_ < len(r.MsgTx.TxOut) ==> r.MsgTx.TxOut[qo_] != nil))
+//@ define wmWF(w) = (w != nil && w.db != nil && w.chainFetcher != nil && w.chainParams != nil && w.ksmgr != nil && w.utxoStore != nil && w.txStore != nil)
+//@ define recsWF(m) = (forall qk_ string :: has(m, qk_) ==> recWF(valAt[*txmgr.TxRecord](m, qk_)))
+//@ define outsWF(t) = (t != nil && (forall qo_ int :: 0 <= qo_ && qo_ < len(t.TxOut) ==> t.TxOut[qo_] != nil))
+//@ define cacheWF(m) = (forall qk_ string :: has(m, qk_) ==> outsWF(valAt[*wire.MsgTx](m, qk_)))
+
+//@ func (*NtfnsHandler).filterTx
+//@   props C19
+//@   requires h != nil && wmWF(h.walletMgr) && h.mempool != nil && txWF(tx)
+//@   requires blockMeta != nil ==> recInCurBlk != nil
+//@   requires recsWF(recInCurBlk)
+//@   modifies recInCurBlk, h.mempool, rollbacks()
+//@   expand db.View
+//@   dead returns 1
+//@   at "cache[txIn.PreviousOutPoint.Hash] = prevTx" assert outsWF(prevTx)
+//@   loop#1 invariant recsWF(recInCurBlk)
+//@   loop#1 invariant cacheWF(cache)
+//@   loop#1 invariant rec != nil && fresh(rec) && sameSlice(rec.MsgTx.TxOut, tx.TxOut) && fresh(rec.RelevantTxIn) && fresh(rec.RelevantTxOut)
+//@   loop#2 invariant rec != nil && fresh(rec) && fresh(rec.RelevantTxOut)
+
+// boundary of the filter: chain database, pending-transaction store, keystore index, store update
+//@ func (*WalletManager).existsUnminedTx
+//@   trusted
+//@   requires w != nil && hash != nil
+//@   ensures mtx != nil ==> txWF(mtx)
+//@ func (*NtfnsHandler).onRelevantTx
+//@   trusted
+//@   requires h != nil && rec != nil
